@@ -54,55 +54,71 @@ Proof.
   rewrite (Hb t (fst p) (snd p) Ht Hfp (proj1 (Forall_forall _ _) Hl p Hp)). unfold is_level. apply cell_eqb_sym.
 Qed.
 
-(** on a complete sequence every trial shows some combination *)
+(** no trial of the grid shows a combination the crossing excludes (proved from
+    the Exclude and Derivation constraints in Encode/F1Excl.v) *)
+Definition NoExcl (s : asg) : Prop :=
+  forall c di t, Forall (fun f => f < nf fb) c -> In di (crossing_combos fb c) -> t < T fb ->
+    cbit fb s di t = true -> is_excluded_or_inconsistent fb di = false.
+
+Lemma tcs_sub c di : In di (trial_combinations_of fb c) -> In di (crossing_combos fb c).
+Proof. unfold trial_combinations_of. intros H. apply filter_In in H. apply H. Qed.
+
+(** on a complete sequence every trial shows some admitted combination *)
 Lemma onehot_matched s q c t (mul : list (nat * nat) -> nat) :
-  onehot fb s q -> Forall (fun f => f < nf fb) c -> t < T fb ->
+  onehot fb s q -> NoExcl s -> Forall (fun f => f < nf fb) c -> t < T fb ->
   existsb (fun cm : list nat * nat => combo_eqb (fst cm) (combo_at q c t))
-          (map (fun di => (map snd di, mul di)) (crossing_combos fb c)) = true.
+          (map (fun di => (map snd di, mul di)) (trial_combinations_of fb c)) = true.
 Proof.
-  intros (_ & _ & Hc & _) Hf Ht. apply existsb_exists.
+  intros Ho Hne Hf Ht. pose proof Ho as (_ & _ & Hc & _). apply existsb_exists.
   set (lv := fun f => match get_cell q f t with Some l => l | None => 0 end).
   assert (Hlv : forall f, In f c -> lv f < nlevels fb f /\ get_cell q f t = Some (lv f)).
   { intros f Hin. destruct (Hc t f Ht (proj1 (Forall_forall _ _) Hf f Hin)) as (l & Hl & El).
     unfold lv. rewrite El. split; [exact Hl|reflexivity]. }
-  exists (map snd (map (fun f => (f, lv f)) c), mul (map (fun f => (f, lv f)) c)). split.
-  - apply (in_map (fun di => (map snd di, mul di))). apply combos_mem. intros f Hin. apply (Hlv f Hin).
-  - cbn [fst]. rewrite map_map. cbn [snd]. apply combo_eqb_self. intros f Hin. apply (Hlv f Hin).
+  set (di0 := map (fun f => (f, lv f)) c).
+  assert (Hfst : map fst di0 = c) by (unfold di0; rewrite map_map; cbn [fst]; apply map_id).
+  assert (Hsnd : map snd di0 = map lv c) by (unfold di0; rewrite map_map; reflexivity).
+  assert (Hin0 : In di0 (crossing_combos fb c)) by (apply combos_mem; intros f Hin; apply (Hlv f Hin)).
+  assert (Hself : combo_eqb (map snd di0) (combo_at q c t) = true).
+  { rewrite Hsnd. apply combo_eqb_self. intros f Hin. apply (Hlv f Hin). }
+  assert (Hshow : cbit fb s di0 t = true).
+  { destruct (combos_spec fb HF1 HT c di0 Hin0) as [_ B].
+    rewrite <- (cbit_combo s q di0 t Ho Ht); [rewrite Hfst; exact Hself|rewrite Hfst; exact Hf|exact B]. }
+  exists (map snd di0, mul di0). split.
+  - apply (in_map (fun di => (map snd di, mul di))). unfold trial_combinations_of. apply filter_In. split; [exact Hin0|].
+    now rewrite (Hne c di0 t Hf Hin0 Ht Hshow).
+  - cbn [fst]. exact Hself.
 Qed.
 
 Theorem cross1_sem s q i c :
-  onehot fb s q -> crossing_f1 fb i c = true ->
+  onehot fb s q -> NoExcl s -> crossing_f1 fb i c = true ->
   (Pcross1 fb i c s <-> crossing_ok (code_sem fb) q (code_crossing fb i c) = true).
 Proof.
-  intros Ho Hcf. pose proof (crossing_f1_factors fb i c Hcf) as Hc.
-  unfold crossing_f1 in Hcf. rewrite !andb_true_iff in Hcf. destruct Hcf as [[[[_ Hlen] Hsize] _] _].
-  apply Nat.eqb_eq in Hlen.
-  assert (Etc : trial_combinations_of fb c = crossing_combos fb c) by (apply filter_length_eq; exact Hlen).
+  intros Ho Hne Hcf. pose proof (crossing_f1_factors fb i c Hcf) as Hc.
+  unfold crossing_f1 in Hcf. rewrite !andb_true_iff in Hcf. destruct Hcf as [[[_ Hsize] _] _].
   unfold crossing_ok.
   set (cc := code_crossing fb i c).
   assert (Hchunk : c_chunk cc = nth i (fl_sizes fb) 0 * crossing_weight fb c) by reflexivity.
   assert (Hfirst : c_first cc = 0) by (apply (f1_preamble fb HF1 i)).
   assert (Hfac : c_factors cc = c) by reflexivity.
   assert (Hmult : c_mult cc = map (fun di => (map snd di, combination_weight fb di * sustain_of fb (hd 0 c) * crossing_weight fb c))
-                                  (crossing_combos fb c)).
-  { unfold cc, code_crossing. cbn [c_mult]. now rewrite Etc. }
+                                  (trial_combinations_of fb c)) by reflexivity.
   assert (Htr : s_trials (code_sem fb) = T fb) by reflexivity.
   assert (Hpos : 0 < c_chunk cc) by (rewrite Hchunk; apply Nat.ltb_lt; exact Hsize).
   assert (Hfuel : s_trials (code_sem fb) - 0 < S (s_trials (code_sem fb))) by lia.
   rewrite Hfirst, Hchunk, Hsize, andb_true_l.
   rewrite (chunks_awc (code_sem fb) q cc Hpos (S (s_trials (code_sem fb))) 0 Hfuel).
   assert (Hm : forall t, 0 <= t < s_trials (code_sem fb) -> matched q cc t).
-  { intros t Ht. rewrite Htr in Ht. unfold matched. rewrite Hfac, Hmult. apply (onehot_matched s q c t _ Ho Hc). lia. }
+  { intros t Ht. rewrite Htr in Ht. unfold matched. rewrite Hfac, Hmult. apply (onehot_matched s q c t _ Ho Hne Hc). lia. }
   rewrite Hmult, Forall_map, Hchunk. unfold Pcross1.
   assert (K : Forall (fun di => awc_ok (S (T fb)) (map (cbit fb s di) (seq 0 (T fb)))
                                   (combination_weight fb di * sustain_of fb (hd 0 c) * crossing_weight fb c)
-                                  (nth i (fl_sizes fb) 0 * crossing_weight fb c)) (crossing_combos fb c) <->
+                                  (nth i (fl_sizes fb) 0 * crossing_weight fb c)) (trial_combinations_of fb c) <->
               Forall (fun x => awc_ok (S (s_trials (code_sem fb)))
                                   (skipn 0 (cbits (code_sem fb) q cc
                                      (map snd x, combination_weight fb x * sustain_of fb (hd 0 c) * crossing_weight fb c)))
                                   (snd (map snd x, combination_weight fb x * sustain_of fb (hd 0 c) * crossing_weight fb c))
-                                  (nth i (fl_sizes fb) 0 * crossing_weight fb c)) (crossing_combos fb c)).
-  { apply Forall_iff_ext. intros di Hdi. destruct (combos_spec fb HF1 HT c di Hdi) as [A B].
+                                  (nth i (fl_sizes fb) 0 * crossing_weight fb c)) (trial_combinations_of fb c)).
+  { apply Forall_iff_ext. intros di Hdi. destruct (combos_spec fb HF1 HT c di (tcs_sub c di Hdi)) as [A B].
     cbn [skipn snd]. rewrite Htr. unfold cbits. rewrite Htr, Hfac. cbn [fst].
     replace (map (fun t => combo_eqb (map snd di) (combo_at q c t)) (seq 0 (T fb)))
       with (map (cbit fb s di) (seq 0 (T fb))); [reflexivity|].
@@ -112,13 +128,13 @@ Proof.
 Qed.
 
 Theorem crossings_sem s q : forall cs i,
-  onehot fb s q -> crossings_f1 fb i cs = true ->
+  onehot fb s q -> NoExcl s -> crossings_f1 fb i cs = true ->
   (Pcrossings fb i cs s <-> forallb (crossing_ok (code_sem fb) q) (code_crossings fb i cs) = true).
 Proof.
-  induction cs as [|c cs IH]; intros i Ho Hf.
+  induction cs as [|c cs IH]; intros i Ho Hne Hf.
   - cbn [Pcrossings code_crossings forallb]. split; trivial.
   - cbn [crossings_f1] in Hf. apply andb_true_iff in Hf. destruct Hf as [Hc Hcs].
-    cbn [Pcrossings code_crossings forallb]. rewrite andb_true_iff, (cross1_sem s q i c Ho Hc), (IH (S i) Ho Hcs).
+    cbn [Pcrossings code_crossings forallb]. rewrite andb_true_iff, (cross1_sem s q i c Ho Hne Hc), (IH (S i) Ho Hne Hcs).
     reflexivity.
 Qed.
 
